@@ -143,6 +143,19 @@ structure RCtx where
   locals : List (Name × Rule) := []
   globals : List (Name × RuleCore) := []
 
+/-- `String` ordering on names: lexicographic by code point (= UTF-8 byte order) -/
+def nameLe : Name → Name → Bool
+  | [], _ => true
+  | _ :: _, [] => false
+  | a :: as, b :: bs => if a.toNat < b.toNat then true else if a.toNat > b.toNat then false else nameLe as bs
+
+def insertByName {β} (x : Name × β) : List (Name × β) → List (Name × β)
+  | [] => [x]
+  | y :: ys => if nameLe x.1 y.1 then x :: y :: ys else y :: insertByName x ys
+
+/-- `constrained.sort_by(|a, b| a.0.cmp(b.0))` (keys of a map are distinct) -/
+def sortByName {β} (l : List (Name × β)) : List (Name × β) := l.foldr insertByName []
+
 /-- `add_label("secondary", node)` -/
 def Env.addLabel (env : Env) (label : Name) (n : Tree) : Env :=
   match alookup label env.multi with
@@ -398,8 +411,8 @@ def matchCore : (fuel : Nat) → RuleCore → Tree → Env → Except Abn (Optio
       | .ok (none, env') => .ok (none, env')
       | .ok (some ret, env') =>
         -- `match_constraints`: scratch copy, committed when every constraint holds;
-        -- iteration over the captured single variables (here: in binding order)
-        match constraintLoop fuel core.constraints env'.single env' with
+        -- the constrained captures are visited in the order of their variable names
+        match constraintLoop fuel core.constraints (sortByName env'.single) env' with
         | .error e => .error e
         | .ok (true, env'') => .ok (some ret, env'')
         | .ok (false, _) => .ok (none, env')
